@@ -136,6 +136,32 @@ theorem finish_writes_everything (P : Params) (hc : CodecOk P.codec) (hB0 : 0 < 
     exact ⟨hf.ioQueue, hf.pool, hf.backlog, hf.deq, hf.fragBlock⟩
   · rw [hr] at h; cases h
 
+/-- **`healthy_run_status_zero`** (the bridge to the code before 69db961).  `sqfs_block_processor_sync` ends with
+`return proc->pool->get_status(proc->pool)`.  On a run in which no callback fails that call answers 0 every time it is
+made (`Sqfs.BlockProc.PInv.status`: under the invariant the pool status is 0 and the call changes nothing but the pool's call
+history; `sync_eq_drain`: `sync` = the drain + a status call that answers 0) — that is why `run_eq_spec`,
+`schedule_independent`, … hold for the current `sync` exactly as they did for the drain alone.  Stated on the final state:
+the status is 0, and asking once more answers 0. -/
+theorem healthy_run_status_zero (P : Params) (hc : CodecOk P.codec) (hB0 : 0 < P.B) (hB : P.B < 2 ^ 24) (mb : Nat)
+    (files : List InFile) (s : Proc) (h : runProc (serial P) mb files = .ok s) :
+    s.pool.ser.status = 0 ∧ (poolStatus (serial P) s.pool).2 = 0 := by
+  rcases run_final (P := serial P) rfl hc hB0 hB mb files with ⟨s', hr, hf⟩ | ⟨e', hr, _⟩
+  · rw [hr] at h
+    simp only [Except.ok.injEq] at h
+    subst h
+    refine ⟨hf.status, ?_⟩
+    simp only [poolStatus, serial, serialAns, Pool.Serial.call, hf.status]
+    simp
+  · rw [hr] at h; cases h
+
+/-- `healthy_run_status_zero` applied to the example instance (non-vacuity: the run succeeds) -/
+example : ∃ s, runProc (serial exP) 3 exFiles = .ok s ∧ s.pool.ser.status = 0 ∧ (poolStatus (serial exP) s.pool).2 = 0 := by
+  cases h : runProc (serial exP) 3 exFiles with
+  | error e =>
+    have : (runProc (serial exP) 3 exFiles).toOption.isSome = true := by decide +kernel
+    rw [h] at this; cases this
+  | ok s => exact ⟨s, rfl, healthy_run_status_zero exP exCodec_ok exP_side.1 exP_side.2.1 3 exFiles s h⟩
+
 /-! ### `specPack` (DESIGN.md Appendix B, `Spec/PackSpec.lean`: the specification C17's directive theorems and the
 read-back theorem are stated against)
 
@@ -454,36 +480,42 @@ theorem stateful_worker_schedule_dependent :
 
 `schedule_independent` assumes that no worker callback fails.  When the compressor fails on a block (`do_block < 0`),
 `process_block` returns the error to the pool, which records it as its status and hands the item back like any other
-(`Sqfs/Model/BlockProcFail.lean`).  The **current** block processor looks at the status only after a failed `submit` or a
-NULL `dequeue`, so a failure can be swallowed, depending on `max_backlog` and on the schedule:
-`Sqfs.Witness.C02.failure_swallowed_current` (replayed on the real code on every run; known finding).  With the
-**repaired** `sync` (it returns the pool status; fixes/C02-report-worker-failure.patch) the failure is reported whatever
-the backlog, worker count and schedule are:
+(`Sqfs/Model/BlockProcFail.lean`).  The block processor looks at the status after a failed `submit`, after a NULL `dequeue`
+and — since /repo 69db961 (= fixes/C02-report-worker-failure.patch) — at the end of every `sqfs_block_processor_sync`, which
+is `return proc->pool->get_status(proc->pool)`.  `sync` / `finish` / `run` of `Sqfs/Model/BlockProc.lean` **are** that
+current code; every theorem of this file is about it.  On a healthy pool the status call answers 0 and changes nothing
+(`Sqfs.BlockProc.PInv.status`, `sync_eq_drain`; visible here as `healthy_run_status_zero`), which is how the theorems of
+the first sections carry over.  *Before* 69db961 `sync` was the drain alone and a failure could be swallowed, depending on
+`max_backlog` and on the schedule: `Sqfs.Witness.C02.failure_swallowed_before_69db961` (`runV false`; a **repaired**
+defect, replayed on every run only to tell a tree that lacks the repair).  With the current `sync` the failure is reported
+whatever the backlog, worker count and schedule are:
 
 Full statement, proved in two parts (`failure_deterministic_partial`: block processor model on the serial pool, every
 `max_backlog`; `failed_item_back_status_nonzero`: threaded pool, every worker count and schedule):
 
     theorem failure_deterministic (P fails rc) (n) (beh : behaviour of the threaded pool with `n` workers whose callback returns
         `workRc fails rc` on the items) (mb files) :
-        (some callback invocation of the run is on an item the compressor fails on) → ∃ e, runV true { failParams P fails rc with ans := behAns beh } mb files = .error e
+        (some callback invocation of the run is on an item the compressor fails on) → ∃ e, run { failParams P fails rc with ans := behAns beh } mb files = .error e
 
 What is missing for the single statement: the block processor model over an *arbitrary* behaviour of a failing threaded pool
 (the invariant of `Proofs/BP*.lean` is proved for the serial answers; `Sqfs.C09.refines_serial` needs failure-free callbacks).
-The threaded half below is the fact about the pool that the repaired `sync` relies on; the composition is exercised on every
+The threaded half below is the fact about the pool that `sync` relies on; the composition is exercised on every
 run (harness/h_c02.c, codec `toyf`, 10 scheduling policies × workers × backlogs: every run must end in an error). -/
 
 /-- the run on a healthy pool in which the blocks the compressor fails on are merely declined (stored uncompressed) — what the
 failing run computes as long as nobody has looked at the pool status -/
 def declined (P : Params) (fails : List UInt8 → Bool) : Params := serial { P with codec := failCodec P.codec fails }
 
-/-- **`failure_deterministic_partial`** (repaired `sync`, serial pool, every `max_backlog`).  If some callback invocation
+/-- **`failure_deterministic_partial`** (the current code, serial pool, every `max_backlog`).  If some callback invocation
 of the run is on an item the compressor fails on (`processed`: the items the pool has worked on, `rcOfTable`: the
-callback's return value), the run returns an error — it never returns 0 with an image in which the block is stored
-uncompressed.  (For the current `sync` this is false: `Sqfs.Witness.C02.failure_swallowed_current`.) -/
+callback's return value), `finish` returns an error, whatever `max_backlog` is — the run never returns 0 with an image in
+which the block is stored uncompressed.  (`h₀` / `hf` speak about the same run on a healthy pool that merely declines the
+marked blocks: that is what the failing run computes until somebody looks at the status.  For the `sync` before 69db961
+the statement is false: `Sqfs.Witness.C02.failure_swallowed_before_69db961`.) -/
 theorem failure_deterministic_partial (P : Params) (fails : List UInt8 → Bool) (rc : Int) (mb : Nat) (files : List InFile)
-    (s₀ : Proc) (h₀ : runProcV true (declined P fails) mb files = .ok s₀)
+    (s₀ : Proc) (h₀ : runProc (declined P fails) mb files = .ok s₀)
     (hf : ∃ id ∈ s₀.pool.ser.processed, rcOfTable fails rc s₀.pool.table id ≠ 0) :
-    ∃ e, runV true (failParams P fails rc) mb files = .error e := by
+    ∃ e, run (failParams P fails rc) mb files = .error e := by
   have hQ : failParams P fails rc = withAns (declined P fails) (failSerialAns fails rc) := rfl
   have H : Agrees (declined P fails) (failSerialAns fails rc) (Healthy fails rc) :=
     ⟨fun p op hg => hg.agree op, fun p b hg => hg.of_submit b, fun p op hg => hg.of_same op⟩
@@ -491,24 +523,33 @@ theorem failure_deterministic_partial (P : Params) (fails : List UInt8 → Bool)
     intro p hp
     simp only [poolStatus, failSerialAns_status] at hp
     exact hp
-  cases hrun : runV true (failParams P fails rc) mb files with
+  cases hrun : run (failParams P fails rc) mb files with
   | error e => exact ⟨e, rfl⟩
   | ok out =>
     exfalso
-    unfold runV at hrun
-    cases hp : runProcV true (failParams P fails rc) mb files with
+    unfold run at hrun
+    cases hp : runProc (failParams P fails rc) mb files with
     | error e => rw [hp] at hrun; cases hrun
     | ok s =>
       rw [hQ] at hp
-      obtain ⟨hg, he⟩ := runProcV_checked_tr H hst (fun p hg => hg.record_status) mb files s hp
+      obtain ⟨hg, he⟩ := runProc_tr H hst (fun p hg => hg.record_status) mb files s hp
       rw [h₀] at he
       cases he
       obtain ⟨id, hid, hne⟩ := hf
       exact hne (hg.processed id hid)
 
+/-- the same for every pair of backlogs at once: if the failing item is worked in the run with `mb₁` and in the run with
+`mb₂`, both runs are errors — whether a compressor failure is reported does not depend on `max_backlog` -/
+theorem failure_backlog_independent (P : Params) (fails : List UInt8 → Bool) (rc : Int) (mb₁ mb₂ : Nat) (files : List InFile)
+    (s₁ s₂ : Proc) (h₁ : runProc (declined P fails) mb₁ files = .ok s₁) (h₂ : runProc (declined P fails) mb₂ files = .ok s₂)
+    (hf₁ : ∃ id ∈ s₁.pool.ser.processed, rcOfTable fails rc s₁.pool.table id ≠ 0)
+    (hf₂ : ∃ id ∈ s₂.pool.ser.processed, rcOfTable fails rc s₂.pool.table id ≠ 0) :
+    (∃ e, run (failParams P fails rc) mb₁ files = .error e) ∧ (∃ e, run (failParams P fails rc) mb₂ files = .error e) :=
+  ⟨failure_deterministic_partial P fails rc mb₁ files s₁ h₁ hf₁, failure_deterministic_partial P fails rc mb₂ files s₂ h₂ hf₂⟩
+
 /-- **`failed_item_back_status_nonzero`** (threaded pool: every worker count, every schedule, spurious wake-ups).  Once an
 item whose callback failed has been handed back by `dequeue`, the pool status is non-zero — and stays so
-(`Sqfs.C09.failure_sticky`), so the `get_status` call at the end of the repaired `sync` reports it
+(`Sqfs.C09.failure_sticky`), so the `get_status` call at the end of `sync` reports it
 (`Sqfs.C09.failure_reported_get_status`). -/
 theorem failed_item_back_status_nonzero {cfg : Pool.Cfg} {n : Nat} {s : Pool.State} (hr : Pool.Reachable cfg n s) (t : Nat)
     (ht : t < s.returned.length) (d : Nat) (hd : s.submitted[t]? = some d) (hrc : cfg.rcOf d ≠ 0) : s.status ≠ 0 := by
@@ -547,10 +588,11 @@ example :
   exact ⟨by decide, by decide,
     failed_item_back_status_nonzero (Sqfs.C09.run_reachable cfg 2 sched) 0 (by decide) 0 (by decide) (by decide)⟩
 
-/-- non-vacuity of `failure_deterministic_partial`: the witness instance (five blocks, the compressor fails on the first),
+/-- non-vacuity of `failure_deterministic_partial` and of `failure_backlog_independent` (whose hypotheses are these for `mb₁ = 3`,
+`mb₂ = 40`; the conclusion on this instance is also `Sqfs.Witness.C02.failure_reported_current`): the witness instance (five blocks, the compressor fails on the first),
 `max_backlog` 3 and 40 — the healthy run succeeds, its first callback invocation is on the marked block -/
 example :
-    let R := fun mb => runProcV true (declined { B := 4, codec := Sqfs.ToyCodec.codec 4, h := fun _ => 0 } Sqfs.Witness.C02.marked) mb
+    let R := fun mb => runProc (declined { B := 4, codec := Sqfs.ToyCodec.codec 4, h := fun _ => 0 } Sqfs.Witness.C02.marked) mb
       [Sqfs.Witness.C02.wFile]
     ∀ mb ∈ [3, 40], ∃ s₀, R mb = .ok s₀ ∧
       ∃ id ∈ s₀.pool.ser.processed, rcOfTable Sqfs.Witness.C02.marked (-3) s₀.pool.table id ≠ 0 := by
@@ -589,8 +631,11 @@ What is **proved** about the environment clause, and what is only **exercised**:
   case folded, Turkish case mapping in `strcasecmp`/`tolower`/the ctype tables, `,` as decimal point, a UTC+13:45 zone
   behind `localtime`/`mktime`) on file names whose `strcmp` order differs from every collation (mixed case, punctuation,
   UTF-8 and Latin-1/5 letters, dotted/dotless i): the image must not change, and every call of such a function is recorded
-  (currently: none but the `isdigit`/`isspace` macros; no `setlocale`; the only environment variable asked for is
-  `SOURCE_DATE_EPOCH`). -/
+  (currently: the `isdigit`/`isspace` macros and `fnmatch` — `glob … -name` lines of a pack file, `[glob]` lines of a sort file;
+  inputs with bracket ranges / high bytes / a character class whose matching differs under case folding or collation are part of
+  every run — never with an active locale: no `setlocale`; the only environment variable asked for is `SOURCE_DATE_EPOCH`).
+  A packer that calls `setlocale` / `newlocale` with anything but `NULL` / `"C"` / `"POSIX"` is a violation by itself
+  (`tool-setlocale:`), whether or not the image of the input at hand changes. -/
 
 /-- **Environment clause (model level) — definition-level.**  The time stamps of an image — the super block's
 `modification_time` and every inode's `mod_time` — are the same in two process environments that agree on
